@@ -505,3 +505,11 @@ MUTANTS += [
  {"id": "c06-applybk-antisym-gets-sym", "prop": "C06", "file": _EC, "old": "                    base.bra_ket_sym is not S.NegativeOne:\n                bra_ket_sym = -1", "new": "                    base.bra_ket_sym is not S.NegativeOne:\n                bra_ket_sym = 1"},
  {"id": "c06-applybk-loses-assumptions", "prop": "C06", "file": _EC, "old": "        if return_sympy:\n            return obj_with_sym\n        return Expr(obj_with_sym, **self.assumptions)", "new": "        if return_sympy:\n            return obj_with_sym\n        return Expr(obj_with_sym)"},
 ]
+MUTANTS += [
+ {"id": "c10-termsym-plus-for-both", "prop": "C10", "file": _EC, "old": "            elif original_term - permuted is S.Zero:\n                symmetry[perms] = +1", "new": "            elif original_term + permuted is not S.Zero:\n                symmetry[perms] = +1"},
+ {"id": "c10-termsym-compares-unpermuted", "prop": "C10", "file": _EC, "old": "            permuted = self.permute(*perms).sympy\n            if original_term + permuted is S.Zero:", "new": "            permuted = self.permute(*perms).sympy\n            if original_term - original_term is S.Zero:"},
+ {"id": "c10-termsym-factor-two", "prop": "C10", "file": _EC, "old": "            elif original_term - permuted is S.Zero:\n                symmetry[perms] = +1", "new": "            elif original_term - permuted is S.Zero:\n                symmetry[perms] = +2"},
+]
+HARMLESS += [
+ {"id": "h-c10-termsym-order-of-tests", "prop": "C10", "file": _EC, "old": "            if original_term + permuted is S.Zero:\n                symmetry[perms] = -1\n            elif original_term - permuted is S.Zero:\n                symmetry[perms] = +1", "new": "            if original_term - permuted is S.Zero:\n                symmetry[perms] = +1\n            elif original_term + permuted is S.Zero:\n                symmetry[perms] = -1"},
+]
